@@ -50,6 +50,18 @@ def withRB (r : Option RB) (g : RB → Bool) (f : RB → String) : String :=
   | some r => if r.arrWF && g r then f r else "panic"
   | none => "panic"
 
+/-- all arrival models of a request bound satisfy `arrWF0` -/
+partial def rbArrWF0 : RB → Bool
+  | .rbf a _ => arrWF0 a
+  | .agg rs => rs.all rbArrWF0
+
+/-- as `withRB` for a query at interval length `d`: at `d = 0` every `number_arrivals` returns 0
+before a recorded distance is looked at, so a delta-min vector ending in 0 is harmless there -/
+def withRBd (r : Option RB) (d : Nat) (g : RB → Bool) (f : RB → String) : String :=
+  match r with
+  | some r => if (r.arrWF || (d == 0 && rbArrWF0 r)) && g r then f r else "panic"
+  | none => "panic"
+
 def pXCostOp : Parser XCostOp
   | "coj" :: ts => do let (n, ts) ← pNat ts; pure (.coj n, ts)
   | "lw" :: ts => do let (n, ts) ← pNat ts; pure (.least n, ts)
@@ -166,7 +178,7 @@ def evalOp : List String → Option String
   | "need" :: ts => do
     let (r, ts) ← pRB ts
     let (d, _) ← pNat ts
-    pure (withRB r (fun _ => true) fun r => toString (r.need d))
+    pure (withRBd r d (fun _ => true) fun r => toString (r.need d))
   | "needs" :: ts => do
     let (r, ts) ← pRB ts
     let (lo, ts) ← pNat ts
@@ -175,7 +187,7 @@ def evalOp : List String → Option String
   | "lw" :: ts => do
     let (r, ts) ← pRB ts
     let (d, _) ← pNat ts
-    pure (withRB r (·.leastGuard d) fun r => toString (r.leastWcet d))
+    pure (withRBd r d (·.leastGuard d) fun r => toString (r.leastWcet d))
   | "rsteps" :: ts => do
     let (r, ts) ← pRB ts
     let (h, _) ← pNat ts
@@ -183,17 +195,17 @@ def evalOp : List String → Option String
   | "jc" :: ts => do
     let (r, ts) ← pRB ts
     let (d, _) ← pNat ts
-    pure (withRB r (·.itemsGuard d) fun r => listToStr (sortDesc (r.jobCosts d)))
+    pure (withRBd r d (·.itemsGuard d) fun r => listToStr (sortDesc (r.jobCosts d)))
   | "nbn" :: ts => do
     let (r, ts) ← pRB ts
     let (d, ts) ← pNat ts
     let (n, _) ← pNat ts
-    pure (withRB r (·.itemsGuard d) fun r => toString (r.needByN d n))
+    pure (withRBd r d (·.itemsGuard d) fun r => toString (r.needByN d n))
   | "nbnc" :: ts => do
     let (r, ts) ← pRB ts
     let (d, ts) ← pNat ts
     let (n, _) ← pNat ts
-    pure (withRB r (·.itemsGuard d) fun r => toString (r.needByNPerComponent d n))
+    pure (withRBd r d (·.itemsGuard d) fun r => toString (r.needByNPerComponent d n))
   | "soff" :: ts => do
     let (r, ts) ← pRB ts
     let (l, _) ← pNat ts
